@@ -522,6 +522,116 @@ func (e *env) estPut(epoch int64, cid []byte, live bool, node *keys.PrivateKey, 
 	e.estSweep(r)
 }
 
+// estBulk: more than a thousand estimations alive at once, all of them outdated by one tick (seeded change C20-11: a
+// budget on the tick's clean-up). Announcements go in descending epoch order, many per block; the raw "cnr" keys of the
+// Container contract are compared with the model before and after the tick, and a few of the epochs are read back.
+func (e *env) estBulk() {
+	b := e.b
+	var nodes []*keys.PrivateKey
+	for _, n := range e.nodes {
+		if e.inPrevMap(n.PublicKey().Bytes()) {
+			nodes = append(nodes, n)
+		}
+	}
+	if len(nodes) < 2 || len(e.cids) < 2 {
+		b.Hit("estimation-bulk-skipped")
+		return
+	}
+	cids := e.cids[:2]
+	per := int64(1024/(len(nodes)*len(cids)) + 6)
+	base := e.epoch + 20
+	type pend struct {
+		ep   int64
+		cid  []byte
+		pub  []byte
+		size int64
+	}
+	var ps []*world.Pending
+	var meta []pend
+	flush := func() bool {
+		if len(ps) == 0 {
+			return true
+		}
+		rs := e.w.Block(ps...)
+		b.Tx(len(rs))
+		for i, r := range rs {
+			if !r.Halted() {
+				b.Violation(fmt.Sprintf("putContainerSize(epoch %d) by a node of the previous map failed while many estimations are alive: %s %s", meta[i].ep, r.State, r.Fault), e.detail(r))
+				return false
+			}
+			m := meta[i]
+			for k, x := range e.ests {
+				if bytes.Equal(x.cid, m.cid) && bytes.Equal(x.node, m.pub) && m.ep-x.epoch > 3 {
+					delete(e.ests, k)
+				}
+			}
+			k := estKey(m.ep, m.cid, m.pub)
+			e.ests[k] = &estEntry{epoch: m.ep, cid: m.cid, node: m.pub, size: m.size, key: k}
+		}
+		ps, meta = nil, nil
+		return true
+	}
+	for ep := base + per - 1; ep >= base; ep-- {
+		for _, cid := range cids {
+			for _, n := range nodes {
+				pub := n.PublicKey().Bytes()
+				size := int64(b.Rng.IntN(1000))
+				ps = append(ps, e.w.Prepare([]world.SignerSpec{world.G(world.Single(n))}, e.cn, "putContainerSize", ep, cid, size, pub))
+				meta = append(meta, pend{ep, cid, pub, size})
+			}
+		}
+		if len(ps) >= 40 && !flush() {
+			return
+		}
+	}
+	if !flush() {
+		return
+	}
+	rawCheck := func(when string) {
+		have := map[string]bool{}
+		for k := range e.w.Dump(e.w.ByH[e.cn].ID) {
+			if strings.HasPrefix(k, "cnr") {
+				have[k] = true
+			}
+		}
+		missing, surplus := 0, 0
+		for k := range e.ests {
+			if !have[k] {
+				missing++
+			}
+		}
+		for k := range have {
+			if e.ests[k] == nil {
+				surplus++
+			}
+		}
+		if missing > 0 || surplus > 0 {
+			b.Violation(fmt.Sprintf("%s: the Container contract stores %d estimations, the model %d (%d put and not cleaned up are missing, %d are there although cleaned up or never put)", when, len(have), len(e.ests), missing, surplus), nil)
+		}
+		b.Eval(fmt.Sprintf("est.bulk|%s|%d", when, len(have)/256), true)
+	}
+	rawCheck(fmt.Sprintf("after %d announcements", int(per)*len(cids)*len(nodes)))
+	readBack := func(when string, want int) {
+		for _, ep := range []int64{base, base + per/2, base + per - 1} {
+			ra := e.w.Read(e.cn, "iterateAllContainerSizes", ep)
+			b.Read(1)
+			// (epochs whose low byte equals another bulk epoch's whole encoding cannot occur: all of them are beyond 255
+			// or the window is shorter than 256)
+			if !ra.OK() {
+				b.Violation(fmt.Sprintf("iterateAllContainerSizes(%d) does not answer %s: %s", ep, when, ra.Err), nil)
+			} else if n := len(world.Arr(ra.Top())); (want == 0 && n != 0) || (want > 0 && n < want) {
+				b.Violation(fmt.Sprintf("iterateAllContainerSizes(%d) returns %d entries %s, expected %d", ep, n, when, want), nil)
+			}
+		}
+	}
+	readBack("before the tick", len(cids)*len(nodes))
+	n := len(e.ests)
+	e.tick(base + per + 10)
+	rawCheck(fmt.Sprintf("after the tick that outdates %d estimations", n))
+	readBack("after the tick", 0)
+	b.Hit("more-than-1024-estimations-outdated-by-one-tick")
+}
+
 func estRender(from []byte, size int64) string { return fmt.Sprintf("%x/%d", from, size) }
 
 // estHugeEpochs: estimations for epoch numbers that need 8 and 9 bytes as NeoVM integers (2^63-1, 2^63,
@@ -965,6 +1075,9 @@ func runC20(b *runner.Batch) {
 			n = 260
 		}
 		e.repBulk(runner.Pick(b.Rng, []int64{1, 257}), e.peers[0], n)
+	}
+	if b.Index%24 == 11 {
+		e.estBulk()
 	}
 	nops := 120
 	if b.Thorough() {
